@@ -354,11 +354,79 @@ pub fn random_walks(out: &mut Shards, n: usize, menus: bool, rng: &mut Rng) -> u
                     }
                 }
             };
-            g = g.apply(a);
+            g = match catch(|| g.apply(a)) {
+                Some(x) => x,
+                None => break, // an action listed as legal is refused: the st line of g records it
+            };
             hist.push(a);
         }
     }
     steps
+}
+
+/// hands checked down to a showdown on chosen boards: random ones and boards that play themselves (straight flush,
+/// quads, flush, straight, full house on the board) against holdings that do or do not improve on them -- the
+/// settlement clauses (strongest hand takes the pot, equal hands split) on card configurations a fixed deal never meets
+pub fn showdowns(out: &mut Shards, n: usize, rng: &mut Rng) -> u64 {
+    let c = |r: u64, s: u64| 1u64 << (r * 4 + s);
+    let lowest = if cfg!(feature = "shortdeck") { 4u64 } else { 0u64 };
+    let mut lines = 0u64;
+    for i in 0..n {
+        let su = rng.below(4);
+        let board: u64 = match i % 6 {
+            1 => { let lo = lowest + rng.below(13 - 4 - lowest); (0..5).map(|k| c(lo + k, su)).fold(0, |a, b| a | b) } // straight flush
+            2 => { let q = lowest + rng.below(13 - lowest); let mut k = lowest + rng.below(13 - lowest); if k == q { k = (q + 1 - lowest) % (13 - lowest) + lowest; } (0..4).map(|s| c(q, s)).fold(0, |a, b| a | b) | c(k, rng.below(4)) }
+            3 => rng.cards(5, (0..13).filter(|r| *r >= lowest).map(|r| c(r, su)).fold(0, |a, b| a | b) & DECK_MASK), // five of one suit
+            4 => { let lo = lowest + rng.below(13 - 4 - lowest); (0..5).map(|k| c(lo + k, (su + k) % 4)).fold(0, |a, b| a | b) } // rainbow straight
+            5 => { let t = lowest + rng.below(13 - lowest); let mut p = lowest + rng.below(13 - lowest); if p == t { p = (t + 1 - lowest) % (13 - lowest) + lowest; } c(t, 0) | c(t, 1) | c(t, 2) | c(p, 0) | c(p, 3) } // full house
+            _ => rng.cards(5, DECK_MASK),
+        };
+        let free = DECK_MASK & !board;
+        // a holding with a high card of the board's suit / rank region, and random ones
+        let suited_high: Vec<u64> = (0..13u64).rev().map(|r| c(r, su)).filter(|m| free & m != 0).collect();
+        let special = if !suited_high.is_empty() && i % 6 != 0 {
+            let a = suited_high[rng.below(suited_high.len().min(4) as u64) as usize];
+            a | rng.cards(1, free & !a)
+        } else {
+            rng.cards(2, free)
+        };
+        let other = rng.cards(2, free & !special);
+        let r1 = rng.cards(2, free);
+        let r2 = rng.cards(2, free & !r1);
+        let r3 = rng.cards(2, free);
+        let r4 = rng.cards(2, free & !r3);
+        // the board in dealing order: three lowest bits as the flop
+        let b0 = board & board.wrapping_neg();
+        let b1 = (board & !b0) & (board & !b0).wrapping_neg();
+        let b2 = (board & !b0 & !b1) & (board & !b0 & !b1).wrapping_neg();
+        let rest = board & !(b0 | b1 | b2);
+        let tn = rest & rest.wrapping_neg();
+        let rv = rest & !tn;
+        let d = Deal { holes: [[special, other], [other, special], [r1, r2], [r3, r4]], streets: [b0 | b1 | b2, tn, rv] };
+        let mut g = root_with(d.holes[0]);
+        let mut hist: Vec<Action> = vec![];
+        // checked (or bet and called) down to the river
+        let mut ok = true;
+        for _ in 0..40 {
+            let a = match g.turn() {
+                Turn::Terminal => break,
+                Turn::Chance => Action::Draw(next_draw(&g, &d)),
+                Turn::Choice(_) => {
+                    let legal = g.legal();
+                    if let Some(x) = legal.iter().find(|a| matches!(a, Action::Check)) { *x }
+                    else if let Some(x) = legal.iter().find(|a| matches!(a, Action::Call(_))) { *x }
+                    else { ok = false; break; }
+                }
+            };
+            g = match catch(|| g.apply(a)) { Some(x) => x, None => { ok = false; break; } };
+            hist.push(a);
+        }
+        if ok && g.turn() == Turn::Terminal {
+            out.line(&st_line(&g, &hist, &d, rng));
+            lines += 1;
+        }
+    }
+    lines
 }
 
 pub fn run(o: &Opts, deck: &str, name: &str) -> String {
@@ -375,9 +443,10 @@ pub fn run(o: &Opts, deck: &str, name: &str) -> String {
     };
     let nrand = if o.thorough() { 200_000 } else { 10_000 };
     let steps = random_walks(&mut out, nrand, menus, &mut rng);
+    let shows = showdowns(&mut out, if o.thorough() { 60_000 } else { 3_000 }, &mut rng);
     let lines = out.finish();
     format!(
-        "{{\"lines\":{},\"states\":{},\"transitions\":{},\"terminals\":{},\"chance\":{},\"random_walk_steps\":{},\"exhaustive_raise_sizes\":{}}}",
-        lines, st.states, st.transitions, st.terminals, st.chance, steps, o.thorough()
+        "{{\"lines\":{},\"states\":{},\"transitions\":{},\"terminals\":{},\"chance\":{},\"random_walk_steps\":{},\"showdowns_on_chosen_boards\":{},\"exhaustive_raise_sizes\":{}}}",
+        lines, st.states, st.transitions, st.terminals, st.chance, steps, shows, o.thorough()
     )
 }
